@@ -225,6 +225,10 @@ fn db_case(seed: u64, drv: &mut Drv, rep: &mut Report) {
     // a long run of hidden versions of one user key (130-300 overwrites kept alive by a snapshot
     // taken before them), so that stepping over a key means stepping over hundreds of records
     let mut hold: Option<raindb::Snapshot> = None;
+    // the key with the long run: the cursor program seeks it and its successors again and again
+    // (a run of versions that straddles a table-file boundary of a deeper level, the level's
+    // iterator standing in the later file, then a seek back to the key - seeded change C04i)
+    let mut hot: Option<Vec<u8>> = None;
     if rng.chance(1, 3) {
         hold = Some(db.get_snapshot());
         let k = if !oracle.is_empty() && rng.chance(3, 4) { oracle.keys().nth(rng.below(oracle.len() as u64) as usize).unwrap().clone() } else { gen_key(&mut rng, space) };
@@ -242,6 +246,13 @@ fn db_case(seed: u64, drv: &mut Drv, rep: &mut Report) {
             }
         }
         rep.count("c04.db.long-run-of-hidden-versions");
+        if rng.chance(1, 2) {
+            // push the run into a deeper level while the snapshot keeps every version alive: the
+            // compaction's outputs are cut at max_file_size inside the run
+            db.compact_range(None..None);
+            rep.count("c04.db.long-run-compacted-into-deeper-levels");
+        }
+        hot = Some(k);
     }
     db.verif_wait_idle(std::time::Duration::from_secs(20));
     let st = db.verif_state();
@@ -312,7 +323,7 @@ fn db_case(seed: u64, drv: &mut Drv, rep: &mut Report) {
             0
         } else if r < 2 {
             1
-        } else if r < 4 {
+        } else if r < 4 || (hot.is_some() && r < 8) {
             2
         } else if (r < 12) != bias_back {
             3
@@ -331,7 +342,20 @@ fn db_case(seed: u64, drv: &mut Drv, rep: &mut Report) {
                 prog.push("l".into());
             }
             2 => {
-                let k = if n > 0 && rng.chance(1, 2) { rng.pick(&want).0.clone() } else { gen_key(&mut rng, space) };
+                let k = match &hot {
+                    Some(h) if rng.chance(2, 3) => {
+                        // the hot key, or a visible key a little behind it
+                        let later: Vec<&(Vec<u8>, Vec<u8>)> = want.iter().filter(|e| e.0 > *h).take(4).collect();
+                        if later.is_empty() || rng.chance(1, 2) { h.clone() } else { rng.pick(&later).0.clone() }
+                    }
+                    _ => {
+                        if n > 0 && rng.chance(1, 2) {
+                            rng.pick(&want).0.clone()
+                        } else {
+                            gen_key(&mut rng, space)
+                        }
+                    }
+                };
                 it.seek(&k).unwrap();
                 pos = want.iter().position(|e| e.0 >= k).unwrap_or(n);
                 prog.push(format!("s:{}", hex(&k)));
